@@ -161,10 +161,10 @@ func (s cdSection) kv() map[string]string {
 }
 
 var cdRender = map[string][3]string{ // option -> def, new, bad
-	"Value": {"Value = 0", "Value = 7", "Value = \"seven\""},
-	"Flag":  {"Flag = false", "Flag = true", "Flag = 3"},
-	"Text":  {"Text = \"\"", "Text = \"x\"", "Text = 5"},
-	"X":     {"X = 1", "X = 1", "X = 1"},
+	"Value":   {"Value = 0", "Value = 7", "Value = \"seven\""},
+	"Flag":    {"Flag = false", "Flag = true", "Flag = 3"},
+	"Text":    {"Text = \"\"", "Text = \"x\"", "Text = 5"},
+	"X":       {"X = 1", "X = 1", "X = 1"},
 	"Unknown": {"Unknown = 1", "Unknown = 1", "Unknown = 1"},
 }
 
